@@ -23,14 +23,45 @@ fn main() {
     if let Some(i) = out.find("#[cfg(test)]") {
         out.truncate(i);
     }
+    // thread-local statics become loom's (fresh per execution and per loom thread); any other
+    // static would be state shared between executions and invisible to loom
+    out = out.replace("std::thread_local!", "thread_local!").replace("thread_local!", "loom::thread_local!");
+    let mut outside = String::new();
+    let mut rest = out.as_str();
+    while let Some(i) = rest.find("loom::thread_local!") {
+        outside.push_str(&rest[..i]);
+        let after = &rest[i..];
+        let open = after.find('{').expect("thread_local! without a block");
+        let mut depth = 0usize;
+        let mut end = after.len();
+        for (j, ch) in after[open..].char_indices() {
+            match ch {
+                '{' => depth += 1,
+                '}' => {
+                    depth -= 1;
+                    if depth == 0 {
+                        end = open + j + 1;
+                        break;
+                    }
+                }
+                _ => {}
+            }
+        }
+        rest = &after[end..];
+    }
+    outside.push_str(rest);
     // any other std::sync / crossbeam use left would be invisible to loom
-    for bad in ["std::sync", "crossbeam", "std::thread", "parking_lot", "static "] {
+    for bad in ["std::sync", "crossbeam", "std::thread", "parking_lot"] {
         assert!(
             !out.contains(bad),
             "rewritten tempfilebuffer.rs still mentions `{}`",
             bad
         );
     }
+    assert!(
+        !outside.contains("static "),
+        "rewritten tempfilebuffer.rs has a `static` outside thread_local!: state shared between executions"
+    );
     let dest = PathBuf::from(std::env::var("OUT_DIR").unwrap()).join("tempfilebuffer.rs");
     std::fs::write(dest, out).unwrap();
 }
